@@ -9,9 +9,12 @@
 //
 // protocol (one op per line; `c` = channel index):
 //   chan <c> client|server          create channel c (must be the next index)
-//   call <c>                        CallMethod on the loop thread; the call gets the next tag of c
-//   callmt <c> <n>                  n threads do one CallMethod each (tags next..next+n-1), are joined,
-//                                   then ONE loop iteration runs (their sends are queued to the loop)
+//   call <c> [<d>]                  CallMethod on the loop thread; the call gets the next tag of c.  d (default 0) =
+//                                   chain depth: when the completion closure of this call runs it issues, from inside
+//                                   Run(), a new CallMethod on the same channel (next tag of c, depth d-1) - chained
+//                                   RPCs as examples/protobuf/rpcbench does them
+//   callmt <c> <n> [<d>]            n threads do one CallMethod each (tags next..next+n-1, each with chain depth d), are
+//                                   joined, then ONE loop iteration runs (their sends are queued to the loop)
 //   peerResponse <c> <id> ok:<p>|garbage|err:<e>|both:<p>:<e>|bare
 //   peerRequest <c> <id> echo|nosvc Echo|Defer|nometh ok:<p>|garbage
 //   peerError <c> <id>              message of type ERROR
@@ -19,10 +22,15 @@
 //   destroy <c>                     client channel: drop the channel object (~RpcChannel)
 //   iter                            one loop iteration
 // events per block, grouped by channel: callback events in order (`c<i> done <tag> view=<p|->`,
+// `c<i> chained <tag'> by <tag>` = the CallMethod issued inside the closure of <tag> returned,
 // `c<i> free resp|done <tag>`, `c<i> dispatch p=<p>`, `c<i> uaf ...`), then what the peer read from the
 // wire: replies in order (`c<i> reply id=<id> payload=<p|-> error=<NAME|->`), then requests sorted by id
 // (`c<i> sent id=<id> tag=<tag>`).  `< order <c> <tag>...` (tags of a callmt in id order) is an
 // environment line.  `abort` = an assertion of the library failed (the block shows only that).
+// `hang` = a thread can never proceed (the block shows only that; the run ends): pthread_mutex_lock is interposed
+// at link level and reports a thread that locks a non-recursive mutex it already holds - what the real call does
+// is block forever; this is decided from the lock state, not from a clock.  A SIGALRM watchdog (re-armed per
+// operation, far above any operation's duration) turns any other standstill into the same line.
 #include "common.h"
 #include "loopstep.h"
 
@@ -43,6 +51,9 @@
 #include <map>
 #include <memory>
 #include <thread>
+#include <dlfcn.h>
+#include <pthread.h>
+#include <signal.h>
 #include <sys/socket.h>
 #include <unistd.h>
 #include <zlib.h>
@@ -100,6 +111,47 @@ extern "C" void __assert_fail(const char* assertion, const char* file, unsigned 
   _exit(0);
 }
 
+// ---- a thread that can never proceed is an observable result, not a lost process
+static void reportHang(const char* why) {
+  // async-signal-safe: the block of the current operation shows only this (everything before it was flushed)
+  g_aborting = true;
+  char b[256];
+  int n = snprintf(b, sizeof b, "hang\n# %s\n--\n", why);
+  ssize_t w = ::write(1, b, static_cast<size_t>(n)); (void)w;
+  _exit(0);
+}
+static void onAlarm(int) { reportHang("watchdog: the current operation did not finish"); }
+static const unsigned kWatchdogSeconds = 60;
+
+// link-level interposition of the mutex entry points (the sanitizers' interceptors stay in the chain): every thread
+// keeps the set of normal (non-recursive, non-error-checking) mutexes it holds; locking one of them again is the
+// self-deadlock that the real pthread_mutex_lock answers by never returning
+typedef int (*MtxFn)(pthread_mutex_t*);
+static MtxFn realMtx(const char* interceptor, const char* name) {
+  void* p = dlsym(RTLD_DEFAULT, interceptor);
+  if (!p) p = dlsym(RTLD_NEXT, name);
+  if (!p) _exit(3);
+  return reinterpret_cast<MtxFn>(p);
+}
+static MtxFn g_realLock, g_realUnlock;
+static __thread pthread_mutex_t* t_held[64];
+static __thread int t_nheld;
+extern "C" int pthread_mutex_lock(pthread_mutex_t* m) {
+  if (!g_realLock) g_realLock = realMtx("__interceptor_pthread_mutex_lock", "pthread_mutex_lock");
+  if ((m->__data.__kind & 127) == PTHREAD_MUTEX_TIMED_NP)
+    for (int i = 0; i < t_nheld; ++i)
+      if (t_held[i] == m) reportHang("self-deadlock: a thread locks a non-recursive mutex it already holds");
+  int r = g_realLock(m);
+  if (r == 0 && t_nheld < 64) t_held[t_nheld++] = m;
+  return r;
+}
+extern "C" int pthread_mutex_unlock(pthread_mutex_t* m) {
+  if (!g_realUnlock) g_realUnlock = realMtx("__interceptor_pthread_mutex_unlock", "pthread_mutex_unlock");
+  for (int i = t_nheld - 1; i >= 0; --i)
+    if (t_held[i] == m) { t_held[i] = t_held[--t_nheld]; break; }
+  return g_realUnlock(m);
+}
+
 // ---- objects handed to CallMethod: destruction and use are observable, memory is never reused
 struct Tracked { bool respDead, doneDead; Tracked() : respDead(false), doneDead(false) {} };
 static std::map<std::pair<int, int>, Tracked> g_tracked;
@@ -144,9 +196,11 @@ void* operator new[](size_t n, const std::nothrow_t&) noexcept { return malloc(n
 void operator delete(void* p, const std::nothrow_t&) noexcept { operator delete(p); }
 void operator delete[](void* p, const std::nothrow_t&) noexcept { operator delete[](p); }
 
+static void oneCall(Chan* ch, int tag, int depth);
+
 class TagClosure : public google::protobuf::Closure {
  public:
-  TagClosure(int c, int tag, TrackedResponse* r) : c_(c), tag_(tag), resp_(r) {}
+  TagClosure(int c, int tag, TrackedResponse* r, int depth) : c_(c), tag_(tag), depth_(depth), resp_(r) {}
   ~TagClosure() override {
     Tracked& t = g_tracked[std::make_pair(c_, tag_)];
     char b[64]; snprintf(b, sizeof b, "%s done %d", t.doneDead ? "doublefree" : "free", tag_);
@@ -162,10 +216,18 @@ class TagClosure : public google::protobuf::Closure {
     if (!t.respDead && resp_->has_payload()) snprintf(b, sizeof b, "done %d view=%llu", tag_, static_cast<unsigned long long>(resp_->payload()));
     else snprintf(b, sizeof b, "done %d view=-", tag_);
     g_chans[static_cast<size_t>(c_)]->cb.push_back(pfx(c_) + b);
+    if (depth_ > 0 && !t.doneDead) {
+      // the completion closure calls back into its own channel (chained RPC): a new CallMethod from inside Run()
+      Chan* ch = g_chans[static_cast<size_t>(c_)];
+      int next = ch->nextTag++;
+      oneCall(ch, next, depth_ - 1);
+      snprintf(b, sizeof b, "chained %d by %d", next, tag_);
+      ch->cb.push_back(pfx(c_) + b);
+    }
     // (protobuf's NewCallback closures delete themselves here; this one stays so that a second Run is an event)
   }
  private:
-  int c_, tag_;
+  int c_, tag_, depth_;
   TrackedResponse* resp_;
 };
 
@@ -320,13 +382,13 @@ static RpcChannel* channelOf(Chan& ch) {
   return get_pointer(*boost::any_cast<RpcChannelPtr>(ch.conn->getMutableContext()));
 }
 
-static void oneCall(Chan* ch, int tag) {
+static void oneCall(Chan* ch, int tag, int depth) {
   RpcChannel* rc = channelOf(*ch);
   veriftest::EchoService::Stub stub(rc);
   veriftest::EchoRequest req;
   req.set_payload(static_cast<uint64_t>(tag));
   TrackedResponse* resp = newResponse(ch->idx, tag);
-  stub.Echo(NULL, &req, resp, new TagClosure(ch->idx, tag, resp));
+  stub.Echo(NULL, &req, resp, new TagClosure(ch->idx, tag, resp, depth));
 }
 
 static bool parsePayloadSpec(const std::string& s, bool response, RpcMessage* m) {
@@ -350,7 +412,7 @@ static bool parsePayloadSpec(const std::string& s, bool response, RpcMessage* m)
 }
 
 static bool g_pendingIter = false;
-static int g_mtChan = -1;
+static int g_mtChan = -1, g_mtFirst = 0, g_mtCount = 0;
 
 static void endIter() {
   drainAll();
@@ -359,7 +421,9 @@ static void endIter() {
     std::vector<std::pair<unsigned long long, int> > v = ch.sentIds;
     std::stable_sort(v.begin(), v.end());
     std::string line = "< order " + std::to_string(g_mtChan);
-    for (size_t i = 0; i < v.size(); ++i) line += " " + std::to_string(v[i].second);
+    // only the threads' own calls: a closure run in this iteration may have chained further calls (later ids)
+    for (size_t i = 0; i < v.size(); ++i)
+      if (v[i].second >= g_mtFirst && v[i].second < g_mtFirst + g_mtCount) line += " " + std::to_string(v[i].second);
     g_env.push_back(line);
     g_mtChan = -1;
   }
@@ -375,19 +439,25 @@ static bool interp() {
     if (w.empty()) continue;
     const std::string& op = w[0];
     bool ok = false;
+    alarm(kWatchdogSeconds);
     if (op == "iter" && w.size() == 1) { g_pendingIter = true; return true; }
     size_t c = w.size() > 1 ? static_cast<size_t>(atoi(w[1].c_str())) : 0;
     Chan* ch = (op != "chan" && c < g_chans.size()) ? g_chans[c] : NULL;
     RpcChannel* rc = ch ? channelOf(*ch) : NULL;
     if (op == "flavour") ok = true;   // for the model only: which build flavour this binary is
     else if (op == "chan" && w.size() == 3) ok = makeChan(c, w[2]);
-    else if (op == "call" && w.size() == 2 && rc) { oneCall(ch, ch->nextTag++); ok = true; }
-    else if (op == "callmt" && w.size() == 3 && rc) {
+    else if (op == "call" && (w.size() == 2 || w.size() == 3) && rc) {
+      int d = w.size() == 3 ? atoi(w[2].c_str()) : 0;
+      if (d >= 0 && d <= 16) { int tag = ch->nextTag++; oneCall(ch, tag, d); ok = true; }
+    }
+    else if (op == "callmt" && (w.size() == 3 || w.size() == 4) && rc) {
       int n = atoi(w[2].c_str());
-      if (n >= 1 && n <= 8) {
+      int d = w.size() == 4 ? atoi(w[3].c_str()) : 0;
+      if (n >= 1 && n <= 8 && d >= 0 && d <= 16) {
         std::vector<std::thread> ts;
-        for (int i = 0; i < n; ++i) ts.push_back(std::thread(oneCall, ch, ch->nextTag + i));
+        for (int i = 0; i < n; ++i) ts.push_back(std::thread(oneCall, ch, ch->nextTag + i, d));
         for (size_t i = 0; i < ts.size(); ++i) ts[i].join();
+        g_mtFirst = ch->nextTag; g_mtCount = n;
         ch->nextTag += n;
         g_mtChan = static_cast<int>(c);
         g_pendingIter = true;
@@ -438,6 +508,8 @@ static bool interp() {
 }
 
 int main() {
+  signal(SIGALRM, onAlarm);
+  alarm(kWatchdogSeconds);
   Logger::setLogLevel(Logger::FATAL);
   Logger::setOutput(dropLog);
   google::protobuf::SetLogHandler(NULL);
